@@ -123,8 +123,20 @@ fn cmd_exec(args: &[String]) -> i32 {
             };
             started.store(0, Ordering::SeqCst);
             rec["ms"] = json!(t.elapsed().as_millis() as u64);
+            let mut text = rec.to_string();
+            // a record too large for the JSON reader on the TLA+ side keeps the kind of each result and loses its
+            // lines; it is marked, and only the totality predicate (which looks at kinds alone) judges it
+            if text.len() > OVERSIZE {
+                if let Some(runs) = rec.get_mut("runs").and_then(|r| r.as_array_mut()) {
+                    for run in runs.iter_mut() { run["res"]["lines"] = json!([]); run["res"]["sw"] = json!([]); if let Some(o) = run.as_object_mut() { o.remove("steps"); } }
+                }
+                if let Some(h) = rec.get_mut("hist").and_then(|r| r.as_array_mut()) { for x in h.iter_mut() { x["res"]["lines"] = json!([]); x["res"]["sw"] = json!([]); } }
+                rec["doms"] = json!([]);
+                rec["oversize"] = json!(text.len());
+                text = rec.to_string();
+            }
             let mut o = out.lock().unwrap();
-            writeln!(o, "{}", rec).expect("write");
+            writeln!(o, "{}", text).expect("write");
             // complete lines only on disk: a later case may abort the process
             o.flush().expect("flush");
         }
@@ -133,6 +145,7 @@ fn cmd_exec(args: &[String]) -> i32 {
     match worker.join() { Ok(_) => 0, Err(_) => 4 }
 }
 
+const OVERSIZE: usize = 24 << 20;
 fn main() {
     let args: Vec<String> = std::env::args().skip(1).collect();
     if args.is_empty() { eprintln!("usage: h2tv exec|gen|concretize ..."); std::process::exit(2); }
